@@ -70,6 +70,10 @@ def mutate(r, g, spec):
             opts += ["keys"]
         if k in ("Index", "Branch", "Label", "UntypedLabel"):
             opts += ["size"]
+        TWIN = {"Label": "UntypedLabel", "UntypedLabel": "Label", "Index": "Branch", "Branch": "Index",
+                "Minimize": "Maximize", "Maximize": "Minimize", "Sum": "Average", "Average": "Sum"}
+        if k in TWIN:
+            opts += ["twin"]
         # structural parameters are where a comparison is most easily lost: favour them over "type"
         m = r.choice(opts[1:]) if len(opts) > 1 and r.random() < 0.7 else r.choice(opts)
         if m == "type":
@@ -81,6 +85,12 @@ def mutate(r, g, spec):
                 continue
             return set_at(s, path, new), "%s: %s -> %s" % ("/".join(map(str, path)), k, new["k"])
         tiny = r.random() < 0.4          # the smallest possible difference: the neighbouring float
+        if m == "twin":
+            # the sibling primitive with the very same children / keys / quantity: only the type differs
+            if path and path[-2:-1] and path[-2] in ("pairs", "values") and get_at(s, path[:-2])["k"] in ("Label", "Index"):
+                continue
+            node["k"] = TWIN[k]
+            return s, "%s: %s -> %s (same content)" % ("/".join(map(str, path)), k, TWIN[k])
         if m == "num":
             node["num"] += r.choice([1, 2])
         elif m == "low":
@@ -100,8 +110,13 @@ def mutate(r, g, spec):
                 node["centers"] = sorted(node["centers"])[:-1] + [max(node["centers"]) + 1.0] if c3 < 0.65 \
                     else sorted(node["centers"]) + [max(node["centers"]) + 1.0]
         elif m == "edges":
-            node["edges"] = list(node["edges"]) + [max(node["edges"]) + 1.0] if r.random() < 0.5 \
-                else [e + 0.125 for e in node["edges"]]
+            if tiny:
+                es = list(node["edges"])
+                es[-1] = math.nextafter(es[-1], math.inf)
+                node["edges"] = es
+            else:
+                node["edges"] = list(node["edges"]) + [max(node["edges"]) + 1.0] if r.random() < 0.5 \
+                    else [e + 0.125 for e in node["edges"]]
         elif m == "range":
             if node["range"] == "N":
                 node["range"] = "S"
@@ -233,6 +248,19 @@ def oracle(p, run, exact):
         if ob[0] == 0 and not comp:
             fails.append({"clause": "%s of incompatible operands raises  [C10_add_rejects]" % name,
                           "diff": "returned a result", "mutation": meta["mutation"]})
+    # whether two aggregators can be merged does not depend on the tolerances configured for ==
+    if not comp_ab:
+        import histogrammar as hg
+        hg.util.relativeTolerance, hg.util.absoluteTolerance = 1e-3, 1e-6
+        try:
+            a + b
+            fails.append({"clause": "a + b of incompatible operands raises whatever the == tolerances are  [C10_add_rejects]",
+                          "diff": "returned a result with relativeTolerance=1e-3, absoluteTolerance=1e-6",
+                          "mutation": meta["mutation"]})
+        except Exception:  # noqa: BLE001
+            pass
+        finally:
+            hg.util.relativeTolerance = hg.util.absoluteTolerance = 0.0
     for name, ob, comp, li, ri in (("a += b", obs[meta["ia"]], comp_ab, 4, 1), ("b += a", obs[meta["ib"]], comp_ba, 5, 0)):
         if comp:
             continue
